@@ -75,6 +75,14 @@ theorem c12_blank_full (ext : Ext) (reShortcut : Bytes → Bytes) (line : Bytes)
     (h : trimSpace line = []) : newRuleFull ext reShortcut line id = .ok none :=
   c12_blank (fullRuleExt ext reShortcut) line id h
 
+/-- The same for `newRuleM`, the model with the shortcut of `/regex/` rules computed from the text
+    (`modelRegexpShortcut`): no parameter left but the `netip` oracle. -/
+theorem c12_outcomes_model (ext : Ext) (line : Bytes) (id : Int) :
+    newRuleM ext line id = .ok none ∨
+    (∃ r, newRuleM ext line id = .ok (some r) ∧ r.text = trimSpace line ∧ r.listID = id) ∨
+    newRuleM ext line id = .error .err :=
+  c12_outcomes_full ext reShortcutM line id
+
 /-! ### Non-vacuity: the complete model on concrete lines (no table for anything but `netip`) -/
 
 private def exExt : Ext :=
